@@ -1,11 +1,12 @@
 """C15 – lifespan trimming keeps exactly the window (and leaves its readings unchanged)."""
 from ..oracles import common as cm
+from ..oracles import framework as fw
 from ..oracles import manager as om
 
 ID = "C15"
 LEAN_MODULE = "HexProps.C15"
-SCOPE = [("manager.trim", 400, 60)]
-ORACLE_RULE = ("C15a: random stream x lifespan x optional timeframe/fill x append schedule on the real CandleManager; retained candles compared exactly "
+SCOPE = [("manager.trim", 400, 60), ("ind.life:ALL", 150, 40), ("hexital.life", 60, 40)]
+ORACLE_RULE = ("C15b: purely recursive indicators appended one candle at a time under a lifespan that always keeps the predecessor, compared exactly with an untrimmed twin; C15a: random stream x lifespan x optional timeframe/fill x append schedule on the real CandleManager; retained candles compared exactly "
                "with the independently computed window of the (resampled) stream after every append")
 ASSUMPTIONS = ["TZ=UTC for this check", "lifespan >= 0"]
 PARTIAL = "first clause (window) proved for every schedule without a timeframe (HexProps.C15.schedule); with a timeframe and the readings clause: correspondence + search"
@@ -16,7 +17,9 @@ _case_fill = om.make_case(ID, tf=True, fill=True, life=True)
 def oracle(ctx):
     n = (300 if ctx["tier"] == "quick" else 3000) * ctx["boost"]
     sz = {"size": 60 if ctx["tier"] == "quick" else 200}
-    return cm.merge_results(cm.run_cases(_case, ctx["seed"], ID, n, sz), cm.run_cases(_case_fill, ctx["seed"], ID + "f", n // 4, sz))
+    return cm.merge_results(cm.run_cases(_case, ctx["seed"], ID, n, sz), cm.run_cases(_case_fill, ctx["seed"], ID + "f", n // 4, sz),
+                            cm.run_cases(fw.c15b_case, ctx["seed"], ID + "b", n, sz))
 
 
-replay = om.replay
+def replay(w):
+    return fw.c15b_replay(w) if "spec" in w["scenario"] else om.replay(w)
